@@ -207,7 +207,8 @@ impl InnerLock {
     pub fn try_read(&self) -> bool {
         self.state
             .fetch_update(Acquire, Relaxed, |s| {
-                is_read_lockable(s).then_some(s + READ_LOCKED)
+                // Lazily, `s + READ_LOCKED` overflows when write locked with both waiting bits set
+                is_read_lockable(s).then(|| s + READ_LOCKED)
             })
             .is_ok()
     }
@@ -287,7 +288,8 @@ impl InnerLock {
     pub fn try_write(&self) -> bool {
         self.state
             .fetch_update(Acquire, Relaxed, |s| {
-                is_unlocked(s).then_some(s + WRITE_LOCKED)
+                // Lazily, `s + WRITE_LOCKED` overflows when locked with both waiting bits set
+                is_unlocked(s).then(|| s + WRITE_LOCKED)
             })
             .is_ok()
     }
